@@ -77,6 +77,19 @@ def generate(rng, tier, seed):
         c.pred("retail MAC = ISO 9797-1 algorithm 3 (long message)",
                lambda rep, r=r, i=i: None if (r.ok and rep[i] == "ok\t" + enc_b(r.value)) else f"{r.value.hex() if r.ok else r.err} != {rep[i]}")
         yield c
+    # retail MAC with equal, equivalent and overlapping keys (key1 == key2; K vs K||K; shared halves)
+    for k1s in (8, 16, 24):
+        for padding in (1, 2, 3):
+            for ln in (0, 5, 8, 13, 16, 40):
+                k = rb(rng, k1s)
+                for k1, k2 in ((k, k), (k, bytes(k)), (k[:8], k[:8] * 2), (k, k[:8])):
+                    data = rb(rng, ln)
+                    c = Case("retail_mac:related-keys", {"k1": len(k1), "k2": len(k2), "len": ln, "padding": padding})
+                    r = c.call("mac.generate_retail_mac", k1, k2, data, padding, None)
+                    i = c.line(f"spec.mac3\t{enc_b(k1)}\t{enc_b(k2)}\ti:{padding}\t{enc_b(data)}\ti:8")
+                    c.pred("retail MAC = ISO 9797-1 algorithm 3 (related keys)",
+                           lambda rep, r=r, i=i: None if (r.ok and rep[i] == "ok\t" + enc_b(r.value)) else f"{r.value.hex() if r.ok else r.err} != {rep[i]}")
+                    yield c
     # oracle-free identity: one-block message (padding 1, 8 bytes): MAC = E_k1(D_k2(E_k1(D1)))
     for _ in range(60 * reps):
         k1, k2, d1 = rb(rng, rng.choice((8, 16, 24))), rb(rng, rng.choice((8, 16, 24))), rb(rng, 8)
@@ -117,6 +130,16 @@ def generate(rng, tier, seed):
         yield c
     # invalid padding selectors, invalid keys, out-of-range lengths
     for padding in (0, 4, -1, 5, 16, 255):
+        # unknown selectors with messages of every alignment (empty, aligned to 8 / 16, unaligned)
+        for ln in (0, 8, 16, 32, 24, 9):
+            for fn, args in (("mac.generate_cbc_mac", (rb(rng, 16), rb(rng, ln), padding, None, A.DES)),
+                             ("mac.generate_cbc_mac", (rb(rng, 16), rb(rng, ln), padding, 8, A.AES)),
+                             ("mac.generate_retail_mac", (rb(rng, 16), rb(rng, 8), rb(rng, ln), padding, None))):
+                c = Case("invalid-padding:aligned", {"padding": padding, "len": ln, "fn": fn})
+                r = c.call(fn, *args)
+                if r.ok or r.err != "value":
+                    c.fail(f"unknown padding method {padding} not rejected with ValueError for a {ln}-byte message")
+                yield c
         for fn, args in (("mac.generate_cbc_mac", lambda: (rb(rng, 16), rb(rng, 9), padding, None, None)),
                          ("mac.generate_cbc_mac", lambda: (rb(rng, 16), rb(rng, 9), padding, 8, A.AES)),
                          ("mac.generate_cbc_mac", lambda: (rb(rng, 5), rb(rng, 0), padding, 3, A.DES)),
